@@ -29,5 +29,9 @@ pub mod utils;
 pub mod zobrist;
 
 pub mod bridge;
+pub mod checks;
+pub mod report;
+pub mod sc;
+pub mod workload;
 pub mod referee;
 pub mod rng;
